@@ -1415,5 +1415,5 @@ func TestC16(t *testing.T) {
 	h.Run(c, "pipeline", c.N(400, 700), genCase, oracleFor(reps))
 	h.Run(c, "closed", c.N(1500, 20000), genClosed, oracleClosed)
 	c.Rule(fmt.Sprintf("fanout: 1..3 sources (200..1000 items in all) into one channel with buffer 1..3, 2..4 worker goroutines consuming it concurrently (for-in / two-value loop / receive-expression loop until nil / capped two-value / capped receive-expression; at least one worker ends only on close), forwarding to a results channel or host out(); GOMAXPROCS 1,2,16 x %d; non-trivial = items > buffer", reps))
-	h.Run(c, "fanout", c.N(24, 40), genFan, oracleFan(reps))
+	h.Run(c, "fanout", c.N(36, 40), genFan, oracleFan(reps))
 }
